@@ -181,6 +181,20 @@ theorem chainM_silent_iff_spec (s : SchemaD) (fx : Fixes) (hfx : HeadVars fx) (h
   (chainM_silent_iff_alone s fx hfx.2.2.2 d ((wfIdsB_iff d).mp hd.checks.ids)).trans
     (verdict_iff_all_memo s fx hfx hs d hd)
 
+/-- **valid by the clauses of all 26 rules ⇒ the chain /repo runs records no error** - no side condition of the merge rule:
+    documents with `__schema { … }` / `__type { … }` sub-selections, any nesting depth and cyclic fragment tables included
+    (only the parser's guarantees `WfIds`, non-empty fragment names) -/
+theorem spec_valid_chainM_accepts (s : SchemaD) (fx : Fixes) (hfx : HeadVars fx) (d : Doc) (hw : WfIds d)
+    (hne : NamesNonEmpty d) (h : ∀ r ∈ Rule.all, SpecAll r s fx d) :
+    E (visitDocumentPar (enterRuleM (memoFuel d)) ⟨s, fx, Rule.all⟩ d {}) = 0 :=
+  (chainM_silent_iff_alone s fx hfx.2.2.2 d hw).mpr (spec_valid_accepted_all_memo s fx hfx d hne h)
+
+/-- **the chain /repo runs records no error ⇒ valid by the clauses of all 26 rules** (`DocOkM`) -/
+theorem chainM_accepted_spec_valid (s : SchemaD) (fx : Fixes) (hfx : HeadVars fx) (hs : SchemaOutputs s) (d : Doc)
+    (hd : DocOkM s d) (h : E (visitDocumentPar (enterRuleM (memoFuel d)) ⟨s, fx, Rule.all⟩ d {}) = 0) :
+    ∀ r ∈ Rule.all, SpecAll r s fx d :=
+  (chainM_silent_iff_spec s fx hfx hs d hd).mp h
+
 /-- **the chain /repo runs gives the same verdict before and after each of the six transformations** (each run with
     the recursion budget of its own document) -/
 theorem chainM_six_transformations (s : SchemaD) (fx : Fixes) (hfx : HeadVars fx) (hs : SchemaOutputs s) (d : Doc)
